@@ -154,4 +154,73 @@ theorem runRoot2_answers (id : Nat) (inner : Src) (h : RootHyp2 id inner) : ∀ 
 theorem rootInv2_cold (id : Nat) (inner : Src) (σ : Store) (h0 : ∀ o, σ.get? (id, o) = none) (hc : Cold σ inner.ids) : RootInv2 id inner σ :=
   fun c => Or.inl ⟨h0 _, cold_coldAt σ _ hc _, cold_coldAt σ _ hc _⟩
 
+/-! ## with `source()` / `buffer()` / `size()` calls interleaved -/
+
+/-- every call of the property's history alphabet that the model's store distinguishes: `map` / `stream_chunks` with a column setting,
+and the text views (which never touch the caches) -/
+inductive RCall3 where
+  | io (c : RCall2)
+  | src
+  | buffer
+  | size
+
+inductive RAns3 where
+  | io (a : RAns)
+  | text (t : Text)
+  | num (n : Nat)
+
+def rootCall3 (id : Nat) (inner : Src) (c : RCall3) (σ : Store) : RAns3 × Store :=
+  match c with
+  | .io c2 => (.io (rootCall2 id inner c2 σ).1, (rootCall2 id inner c2 σ).2)
+  | .src => (.text (Src.cached id inner).src, σ)
+  | .buffer => (.text (Src.cached id inner).buffer, σ)
+  | .size => (.num (Src.cached id inner).size, σ)
+
+def runRoot3 (id : Nat) (inner : Src) : List RCall3 → Store → List (RCall3 × RAns3) × Store
+  | [], σ => ([], σ)
+  | c :: cs, σ => ((c, (rootCall3 id inner c σ).1) :: (runRoot3 id inner cs (rootCall3 id inner c σ).2).1, (runRoot3 id inner cs (rootCall3 id inner c σ).2).2)
+
+/-- what an answer must be: the views are the wrapped source's; `map` / `stream_chunks` as in `runRoot2_answers` -/
+def AnsOK3 (inner : Src) (c : RCall3) (a : RAns3) : Prop :=
+  match c, a with
+  | .src, .text t => t = inner.src
+  | .buffer, .text t => t = inner.buffer
+  | .size, .num n => n = inner.size
+  | .io c2, .io (.stream r) => r = (inner.strip.stream ⟨c2.1, false⟩ []).1
+      ∨ (∃ e, (e = mapFill2 inner c2.1 ∨ e = streamFill2 inner c2.1) ∧ r = (match e with
+          | some m => streamSM inner.src m ⟨c2.1, false⟩
+          | none => streamRaw inner.src ⟨c2.1, false⟩))
+  | .io c2, .io (.map m) => m = mapFill2 inner c2.1 ∨ m = streamFill2 inner c2.1
+  | _, _ => False
+
+theorem runRoot3_answers (id : Nat) (inner : Src) (h : RootHyp2 id inner) : ∀ (calls : List RCall3) (σ : Store), RootInv2 id inner σ →
+    ∀ p ∈ (runRoot3 id inner calls σ).1, AnsOK3 inner p.1 p.2 := by
+  intro calls
+  induction calls with
+  | nil => intro σ _ p hp; simp [runRoot3] at hp
+  | cons c cs ih =>
+    intro σ hi p hp
+    simp only [runRoot3, List.mem_cons] at hp
+    cases c with
+    | io c2 =>
+      obtain ⟨s1, s2⟩ := rootInv2_step id inner h σ hi c2
+      rcases hp with rfl | hp
+      · simp only [rootCall3, AnsOK3]
+        cases hr : (rootCall2 id inner c2 σ).1 with
+        | stream r => rw [hr] at s2; exact s2
+        | map m => rw [hr] at s2; exact s2
+      · exact ih _ s1 p hp
+    | src =>
+      rcases hp with rfl | hp
+      · simp [rootCall3, AnsOK3, Src.src]
+      · exact ih _ hi p hp
+    | buffer =>
+      rcases hp with rfl | hp
+      · simp [rootCall3, AnsOK3, Src.buffer]
+      · exact ih _ hi p hp
+    | size =>
+      rcases hp with rfl | hp
+      · simp [rootCall3, AnsOK3, Src.size]
+      · exact ih _ hi p hp
+
 end Rs
